@@ -95,7 +95,7 @@ def main(tier: str) -> int:
     st = (("iri", "http://e/s"), ("iri", "http://e/p"), ("lit", "v", "", ""))
     for sclass, lt, delimited, nsdecl in itertools.product(("triple", "quad", "graph"), (0, 1, 2, 3, 4, 13, 14, 114), (True, False), (True, False)):
         for preset in presets:
-            for gen, star in ((False, False), (True, True)) if quick else itertools.product((False, True), repeat=2):
+            for gen, star in itertools.product((False, True), repeat=2):
                 name = name_pool[written % len(name_pool)]
                 written += 1
                 cfg = impl.default_cfg(integ="generic", entry="stream_frames", sclass=sclass, ltype=lt, delimited=delimited, preset=preset,
